@@ -18,12 +18,12 @@ package main
 import (
 	"flag"
 	"fmt"
-	"time"
 	"os"
 	"path/filepath"
 	"sort"
 	"strconv"
 	"strings"
+	"time"
 
 	"verif/harness/internal/hx"
 )
